@@ -374,10 +374,32 @@ def run_shard(spec, rec):
     attach(rec, log)
     rng = rng_for(spec)
     if spec["mode"] == "direct":
+        edge_cases(rec, rng)
         for _ in range(spec["n"]):
             one_direct(rng, rec, log)
     else:
         insitu(spec, rec, log, rng)
+
+
+def edge_cases(rec, rng):
+    """A matrix without columns (every clp of an index removed by constraints / relations) has full column rank
+    vacuously: the minimiser is the empty clp vector and the residual is the data."""
+    import glotaran.optimization.estimation_provider as ep
+
+    for name, fn in ep.SUPPORTED_RESIUDAL_FUNCTIONS.items():
+        for m in (1, 2, 7, 40):
+            y = rng.standard_normal(m)
+            for A in (np.zeros((m, 0)), np.zeros((m, 0), order="F")):
+                ctx = {"fn": name, "m": m, "n": 0}
+                rec.count("empty_matrix_cases")
+                try:
+                    clp, res = fn(A, y.copy())
+                except Exception as e:  # noqa
+                    rec.violation(f"{name}:empty-matrix:raises", ctx, f"matrix with 0 columns: {type(e).__name__}: {str(e)[:150]}")
+                    break
+                if np.asarray(clp).size != 0 or not np.array_equal(np.asarray(res), y):
+                    rec.violation(f"{name}:empty-matrix:residual", ctx, f"matrix with 0 columns: clp {np.asarray(clp).tolist()}, residual != data")
+                    break
 
 
 def insitu(spec, rec, log, rng):
@@ -418,6 +440,11 @@ def insitu(spec, rec, log, rng):
             rec.violation("insitu:bypass", desc, f"{len(prov)} provider solves but {len(solves)} contracted residual calls")
         step = max(1, len(solves) // 400)
         for kind, A, y, x, r, refs in solves[::step]:
+            if A.shape[1] == 0:
+                rec.count("insitu_empty_matrix_solves")
+                if np.asarray(x).size != 0 or not np.array_equal(np.asarray(r), np.asarray(y)):
+                    rec.violation(f"{kind}:empty-matrix:residual", dict(desc, insitu=True), "in-situ matrix with 0 columns: residual != data")
+                continue
             sv = np.linalg.svd(A, compute_uv=False)
             kappa = float(sv[0] / sv[-1]) if sv[-1] > 0 else float("inf")
             if not kappa <= KAPPA_MAX:
